@@ -462,6 +462,10 @@ def element(ctx, depth):
         if ctx.opts.get("dict_attrs") and d(st.integers(0, 2)) == 0:
             pos = d(st.integers(0, len(entries)))
             entries.insert(pos, [None, ["var", "d0"]])
+            if d(st.integers(0, 3)) == 0:
+                # a second dictionary in the same statement
+                entries.insert(d(st.integers(0, len(entries))),
+                               [None, ["var", "d0"]])
             if d(st.booleans()) and "k" not in seen:
                 # a named entry after the dictionary that the dictionary
                 # supplies as well
